@@ -190,6 +190,18 @@ Definition decl_init (p : string) (l : list stmt) : option ex :=
   | _ => None
   end.
 
+(* no arithmetic operation anywhere in an expression (variables, literals, conversions, comparisons, calls of non-arithmetic
+   functions only): such an expression cannot wrap *)
+Fixpoint arith_free (e : ex) : bool :=
+  match e with
+  | Bin _ _ _ _ => false
+  | Cmp _ a b => arith_free a && arith_free b
+  | Not a | Cast _ a => arith_free a
+  | Cond c a b => arith_free c && arith_free a && arith_free b
+  | Call _ _ args => (fix all (l : list ex) : bool := match l with [] => true | x :: r => arith_free x && all r end) args
+  | _ => true
+  end.
+
 (* no statement or expression the extractor did not understand, in the parts that are interpreted *)
 Fixpoint ex_known (e : ex) : bool :=
   match e with
